@@ -145,6 +145,10 @@ def analyse_masker(repo: Repo, ci: ClassInfo) -> MaskerInfo:
     mi.reads_param = mentions(theta, lambda t: t[0] == 'attr' and t[1] == SELF and t[2] in params)
     if theta[0] == 'attr' and theta[1] == SELF and theta[2] in bufs:
         mi.buffer_only = theta[2]
+        if is_call(bufs[theta[2]][0], 'torch.ones'):
+            # a constant all-ones mask: every position is alive whatever the parameters are
+            mi.blend_ok = True
+            mi.alive = {S: True, E: True}
         return mi
     # theta = matmul(C, blend) | blend
     blend = theta
